@@ -40,7 +40,7 @@ def hamiltonian(p):
 
 
 # ------------------------------------------------------------------ case construction
-KINDS = ['plain', 'plain', 'concat', 'periodic', 'slice', 'extend', 'remap', 'long']
+KINDS = ['plain', 'intdt', 'concat', 'periodic', 'slice', 'extend', 'remap', 'long']
 
 
 def build(r, kind, thorough, spec=None, idx=0):
@@ -75,6 +75,20 @@ def build(r, kind, thorough, spec=None, idx=0):
     if kind == 'plain':
         q = mk('p', d=int(r.choice([2, 2, 3, 4] if thorough else [2, 2, 3])), G=int(r.integers(1, 6 if thorough else 5)))
         info.update(src=[q.dt.copy()], newdt='d0', cached_src=None)
+    elif kind == 'intdt':
+        # durations given as Python ints / an integer-dtype array: dt, t and tau keep the integer dtype
+        if 'p' in spec:
+            q = unpack_pulse(spec['p'])
+        else:
+            p0, tags = gen.rand_pulse(r, d=int(r.choice([2, 3])), G=int(r.integers(2, 6)), dtc='generic')
+            G = len(p0.dt)
+            dti = [int(x) for x in r.integers(1, 4, G)]
+            if j % 3 == 2 and G > 2:
+                dti[int(r.integers(1, G))] = 0
+            spec['p'] = dict(pack_pulse(p0), dt=np.array(dti, dtype=np.int64), dt_int='list' if j % 2 == 0 else 'int64')
+            spec.setdefault('tags', dict(tags, dt='integer-' + spec['p']['dt_int']))
+            q = unpack_pulse(spec['p'])
+        info.update(src=[np.asarray(q.dt, dtype=float)], newdt='d0', cached_src=None, halves=True)
     elif kind == 'long':
         G = spec.setdefault('G', int(r.integers(8, 41)))
         if 'p' in spec:
@@ -180,6 +194,14 @@ def _arr(x):
     return np.array(x)
 
 
+def _dt_of(s):
+    if s.get('dt_int') == 'list':
+        return [int(x) for x in np.asarray(_arr(s['dt']).real)]
+    if s.get('dt_int') == 'int64':
+        return np.array([int(x) for x in np.asarray(_arr(s['dt']).real)], dtype=np.int64)
+    return _arr(s['dt']).real
+
+
 def unpack_pulse(s):
     bt = s.get('btype', 'Custom')
     d = _arr(s['c_opers']).shape[-1]
@@ -189,7 +211,7 @@ def unpack_pulse(s):
         basis = ff.Basis(_arr(s['basis']), btype=bt if bt in ('GGM',) else None)
     return ff.PulseSequence([[o, c, 'c%d' % i] for i, (o, c) in enumerate(zip(_arr(s['c_opers']), _arr(s['c_coeffs']).real))],
                             [[o, c, 'n%d' % i] for i, (o, c) in enumerate(zip(_arr(s['n_opers']), _arr(s['n_coeffs']).real))],
-                            _arr(s['dt']).real, basis=basis)
+                            _dt_of(s), basis=basis)
 
 
 def query_times(r, t):
@@ -197,8 +219,13 @@ def query_times(r, t):
     tau = t[-1]
     tq = list(r.uniform(0, tau, 3)) if tau > 0 else []
     for e in t:
+        e = float(e)
         tq += [e, np.nextafter(e, -np.inf), np.nextafter(e, np.inf)]
-    tq = np.array([x for x in tq if 0.0 <= x <= tau])
+    t = np.asarray(t)
+    if np.issubdtype(np.asarray(t).dtype, np.integer):       # non-integer times between integer edges
+        for e in t[:-1]:
+            tq += [e + 0.5, e + 0.25, e + 0.999]
+    tq = np.array([x for x in tq if 0.0 <= x <= tau], dtype=float)
     return tq
 
 
